@@ -581,6 +581,15 @@ def specials():
                     LEAF_ACTS + [(9, "N0", "m_change_state"), (9, "N1", "m_enable_action")], ["enable_below_disable"]))
     out.append(gram(L + [("N1", "seq< L1, opt< L2 >, opt< L3 > >"), ("N0", "seq< state< vh::st< 1 >, N1 >, opt< L1 > >")], "seq< N0, opt< L3 > >",
                     LEAF_ACTS + [(9, "N1", "m_limit_depth< 2 >"), (9, "N0", "m_change_state")], ["limit_depth_in_scope"]))
+    # re-enabling below disable_action: enable<> and enable_action / change_state / change_action nested under a rule whose action
+    # derives from disable_action must still find the grammar's action class
+    out.append(gram(L + [("N1", "seq< L1, opt< L2 > >"), ("N0", "seq< L3, enable< N1 >, opt< L2 >, enable< L1 > >")], "seq< opt< L1 >, star< N0 >, opt< L2 > >",
+                    LEAF_ACTS + [(9, "N0", "m_disable_action")], ["enable_below_disable_action"]))
+    out.append(gram(L + [("N2", "seq< L2, opt< L3 > >"), ("N1", "seq< L1, opt< N2 > >"), ("N0", "seq< opt< L3 >, N1, opt< L1 > >")], "seq< star< N0 >, opt< L2 > >",
+                    LEAF_ACTS + [(9, "N0", "m_disable_action"), (9, "N1", "m_enable_action"), (9, "N2", "m_change_state")], ["switches_below_disable_action"]))
+    out.append(gram(L + [("N1", "seq< L1, opt< L2 > >"), ("N0", "seq< opt< L3 >, enable< N1 > >")], "seq< star< N0 >, opt< L1 > >",
+                    LEAF_ACTS + [(9, "N0", "m_disable_action"), (9, "N1", "m_change_action< vh::act10 >"), (10, "L1", "b_apply_void< 10, @R@ >"), (10, "L2", "b_apply_void< 10, @R@ >")],
+                    ["change_action_below_disable_action"]))
     # recursion: a fresh state per level
     out.append(gram(L + [("N0", "seq< L1, opt< N0 >, opt< L2 > >")], "seq< N0, opt< L3 > >", LEAF_ACTS + [(9, "N0", "m_change_state")], ["recursive_state"]))
     out.append(gram(L + [("N0", "state< vh::st< 1 >, L1, opt< N0 >, opt< L2 > >")], "seq< N0, opt< L3 > >", LEAF_ACTS, ["recursive_state_rule"]))
